@@ -166,8 +166,47 @@ def cleared_equalities(hyps):
     return out
 
 
+# assumed universal facts about applications of given function symbols (admissible domain of the
+# model parameters / states), instantiated at every such application occurring in a query
+TERM_FACTS = []  # [(op name, term -> fact)]
+
+
+def term_facts(ts):
+    if not TERM_FACTS:
+        return []
+    ops = {}
+    for op, f in TERM_FACTS:
+        ops.setdefault(op, []).append(f)
+    out = []
+    for t in collect(ts, lambda t: t.op in ops):
+        for f in ops[t.op]:
+            out.append(f(t))
+    return out
+
+
+def sum_sign_lemmas(ts):
+    """instances of: a sum of positive terms over a non-empty range is positive; a sum of
+    non-negative terms is non-negative (both by induction on the length; base and step are proved
+    by lemma:sum-signs), in skolemised contrapositive form"""
+    out = []
+    for s in {x.uid: x for x in collect(ts, lambda t: t.op == "sum")}.values():
+        B, n = s.args
+        sk1 = T.var(f"pos!{s.uid}", T.INT)
+        sk2 = T.var(f"nonneg!{s.uid}", T.INT)
+        b1 = T.substitute(B, {BV: sk1})
+        b2 = T.substitute(B, {BV: sk2})
+        out.append(T.or_(T.and_(T.le(0, sk1), T.lt(sk1, n), T.le(b1, 0)), T.le(n, 0), T.lt(0, s)))
+        out.append(T.or_(T.and_(T.le(0, sk2), T.lt(sk2, n), T.lt(b2, 0)), T.le(0, s)))
+    return out
+
+
 def _augment(hyps, goal, assume_domains):
     roots = hyps + ([goal] if goal is not None else [])
+    if TERM_FACTS:
+        extra = sum_sign_lemmas(roots)
+        hyps = hyps + extra
+        hyps = hyps + term_facts(hyps + ([goal] if goal is not None else []))
+        roots = hyps + ([goal] if goal is not None else [])
     if assume_domains:
         hyps = hyps + domain_facts(roots)
     roots = hyps + ([goal] if goal is not None else [])
